@@ -1593,6 +1593,12 @@ def _c08_cases(tier, rng):
                            "n": 2000, "_class": "shape-" + sh["type"]}
         yield {"obj": "shape", "shape": sh, "M": None, "stroke": "black", "sw": 2.0, "transformed": True, "with_stroke": True, "n": 2000,
                "_class": "shape-" + sh["type"]}
+        # rotation then anisotropic scale (orthogonal rows, non-orthogonal columns) and the opposite order
+        for ang, (sx, sy) in ((30.0, (2.0, 1.0)), (45.0, (1.0, 4.0)), (-50.0, (-2.0, 0.5))):
+            sc = [sx, 0.0, 0.0, sy, 0.0, 0.0]
+            for M in (_compose(_rot(ang), sc), _compose(sc, _rot(ang))):
+                yield {"obj": "shape", "shape": sh, "M": list(M), "stroke": "black", "sw": 1.0, "transformed": True,
+                       "with_stroke": False, "n": 2000, "_class": "shape-" + sh["type"]}
     # ---- groups (one nesting level) and use
     for i in range(8 if q else 40):
         kids = []
